@@ -173,6 +173,13 @@ def run(ctx):
         for name, root in meshmc.deep_histories(cfgname, k).items():
             meshmc.explore(ctx, cfgname, dd, state_fn, None, onv, stats=st, hlimit=HLIMIT, root=root,
                            label='{}+deep:{}'.format(cfgname, name))
+    # very deep time strips (h_t down to 2^-8 / 2^-11 / 2^-14 at t = 0): leaves that sit EXACTLY on a window edge for the
+    # fractional exponent (h_x^1.5 == K h_t at h_x = 2^-4, h_t = 2^-8, ...) only exist at these time levels
+    for cfgname in ('UnitSquare', 'LShapeDriver', 'UnitInterval'):
+        for kk in ((8, ) if ctx.tier == 'quick' else (8, 11, 14)):
+            root = meshmc.deep_histories(cfgname, kk)['t0']
+            meshmc.explore(ctx, cfgname, 0 if ctx.tier == 'quick' else 1, state_fn, None, onv, stats=st, hlimit=HLIMIT, root=root,
+                           label='{}+deep:t0x{}'.format(cfgname, kk))
     # supplementary random histories (seeded; not part of the exhaustive claim)
     nrw = 0
     nund = 0
